@@ -2,6 +2,7 @@ package c14
 
 import (
 	"bytes"
+	"encoding/json"
 	"fmt"
 	"io"
 	"log"
@@ -155,6 +156,22 @@ func genQuery(rng *rand.Rand, wire bool) string {
 		b.WriteString("&long=" + strings.Repeat("y", 3000+rng.Intn(6000)))
 	}
 	return b.String()
+}
+
+// genWireQuery: a Rest.li query string the server's ParseQueryParams accepts (so that the call
+// reaches the resource), with encoded CR/LF, '&', '=', '%' and boundary-like text in the values
+func genWireQuery(rng *rand.Rand) string {
+	vals := []string{"1", "find", "List(1,2)", "(a:1,b:'')", "%0D%0A--" + fixedBoundary + "--%0D%0A", "x%26y%3Dz%25", "--" + fixedBoundary, "''", "a%20b", "%C3%A9", "(k:List((x:1)))"}
+	n := 1 + rng.Intn(4)
+	parts := make([]string, n)
+	for i := range parts {
+		parts[i] = fmt.Sprintf("p%d=%s", i, vals[rng.Intn(len(vals))])
+	}
+	q := strings.Join(parts, "&")
+	if rng.Intn(10) == 0 {
+		q += "&long=" + strings.Repeat("y", 3000+rng.Intn(6000))
+	}
+	return q
 }
 
 var bodyAtoms = []string{"{}", `{"a":1}`, "\r\n", "\n", "--" + fixedBoundary, "\r\n--" + fixedBoundary + "\r\n", "\r\n--" + fixedBoundary + "--\r\n", "--" + fixedBoundary + "--",
@@ -533,6 +550,9 @@ func Run(cfg Config) *hx.Result {
 		if i%3 == 0 {
 			x.kTunSite(s)
 		}
+		if i%4 == 0 {
+			x.genMalformed(rng)
+		}
 
 		// the client constructors and the end-to-end behaviour
 		if i%2 == 0 {
@@ -541,21 +561,86 @@ func Run(cfg Config) *hx.Result {
 			var contents []byte
 			if wverb == "PUT" || wverb == "POST" {
 				contents = genBody(rng)
+				if rng.Intn(4) != 0 && len(contents) > 0 {
+					// valid JSON (so that the resource is reached) whose text still carries the dangerous lines
+					js, _ := json.Marshal(map[string]string{"s": string(contents)})
+					contents = bytes.ReplaceAll(js, []byte(`\r\n`), []byte("\r\n")) // raw CR LF are legal JSON whitespace only outside strings; keep them escaped in strings
+					contents = append([]byte("{\r\n--"+fixedBoundary+"x\r\n \"t\":"), append(js, '}')...)
+				}
 				if len(contents) == 0 {
 					// a Marshaler that writes nothing still yields "null": the client API cannot
 					// produce a present-but-empty body (only the direct ops can)
 					contents = []byte("{}")
 				}
 			}
-			wq := genQuery(rng, true)
+			wq := genWireQuery(rng)
+			if rng.Intn(4) == 0 {
+				wq = genQuery(rng, true)
+			}
 			ts := []int{0, 1, len(wq) - 1, len(wq), len(wq) + 1, 1 + rng.Intn(len(wq)+2)}
 			t := ts[rng.Intn(len(ts))]
-			key := []string{"1", "a%2Fb", "(k:1)"}[rng.Intn(3)]
+			key := []string{"1", "a%2Fb", "x.y"}[rng.Intn(3)]
 			x.kTunReq(t, "/coll/"+key, &wq, wverb, rm, contents)
 			x.dEndToEnd(t, "/coll/"+key, &wq, wverb, rm, contents)
 		}
 	}
 	return r
+}
+
+// genMalformed: one of the property's four malformed shapes with random well-formed parts
+func (x *runner) genMalformed(rng *rand.Rand) {
+	ctk := restli.ContentTypeHeader
+	fresh := func() string {
+		atoms := []string{"a=b", "{}", "\r\n", "--", "--x", "\r\n--" + fixedBoundary + "x", "q", strings.Repeat("k", 50)}
+		var b strings.Builder
+		for i := rng.Intn(3); i >= 0; i-- {
+			b.WriteString(atoms[rng.Intn(len(atoms))])
+		}
+		return b.String()
+	}
+	form := func() wpart { return wpart{ctk, restli.FormUrlEncodedContentType, fresh()} }
+	js := func() wpart { return wpart{ctk, restli.ApplicationJsonContentType, fresh()} }
+	unknown := func() wpart {
+		return wpart{ctk, []string{"text/plain", "application/json; charset=utf-8", "APPLICATION/JSON", "application/xml"}[rng.Intn(4)], fresh()}
+	}
+	var parts []wpart
+	name, rawQuery := "", ""
+	switch rng.Intn(4) {
+	case 0:
+		name = "missing query part"
+		for i := rng.Intn(3); i > 0; i-- {
+			parts = append(parts, js())
+		}
+	case 1:
+		name = "missing body part"
+		for i := 1 + rng.Intn(2); i > 0; i-- {
+			parts = append(parts, form())
+		}
+	case 2:
+		name = "unknown part type"
+		for i := rng.Intn(3); i > 0; i-- {
+			if rng.Intn(2) == 0 {
+				parts = append(parts, form())
+			} else {
+				parts = append(parts, js())
+			}
+		}
+		parts = append(parts, unknown())
+		if rng.Intn(2) == 0 {
+			parts = append(parts, form(), js())
+		}
+	default:
+		name = "override header with a URL query"
+		parts = []wpart{form(), js()}
+		rawQuery = []string{"x=1", "a", "q=find&y=2"}[rng.Intn(3)]
+	}
+	body, _ := realMpWrite(fixedBoundary, parts)
+	h := baseHeaders("get")
+	h.Set(restli.MethodOverrideHeader, verbs[rng.Intn(4)])
+	h.Set(restli.ContentTypeHeader, "multipart/mixed; boundary="+fixedBoundary)
+	s := sreq{method: http.MethodPost, path: "/coll/1", rawQuery: rawQuery, header: h, body: "=" + string(hx.UnHex(strings.Fields(body)[1]))}
+	x.kTunSite(s)
+	x.dMalformed(s, name)
 }
 
 // malformedCorpus: the property's four named malformed shapes and their neighbours, through the
